@@ -368,6 +368,19 @@ def rule_invert(facts, rep):
     rule_invert.use_why = str(bad["use"][:2])
 
 
+def _arg_name(x):
+    """What a format argument is: a local's name; `c.0/.1/.2` or `c.r()/.g()/.b()` of a colour are its components r, g, b."""
+    x = hir.peel(hir.simp(x))
+    if x.get("k") == "local":
+        return x["name"]
+    if x.get("k") == "field" and x["name"] in ("0", "1", "2") and hir.peel(hir.simp(x["e"])).get("k") == "local":
+        return "rgb"[int(x["name"])]
+    if x.get("k") == "call" and hir.callee(x) in ("anstyle::color::RgbColor::r", "anstyle::color::RgbColor::g", "anstyle::color::RgbColor::b") \
+            and hir.peel(hir.simp(x["args"][0])).get("k") == "local":
+        return hir.callee(x)[-1]
+    return None
+
+
 def rule_names(facts, rep):
     n = facts.body("anstyle_svg", V + "ANSI_NAMES")
     arr = ac.single_expr(n["hir"])
@@ -386,7 +399,7 @@ def rule_names(facts, rep):
         if len(fmts) == 1:
             pieces, args = hir.fmt_template(fmts[0])
             got[v] = ("".join(p if isinstance(p, str) else ("{:%s%s}" % ("0%d" % p[3]["width"] if len(p) > 3 and p[3].get("zero_pad") else "", "X" if p[2] == "new_upper_hex" else "")) for p in pieces),
-                      [hir.local_name(x) for x in args])
+                      [_arg_name(x) for x in args])
         if v == "Ansi":
             idx = [x for x in hir.walk(a["body"]) if x.get("k") == "index" and hir.is_def(x["e"], "anstyle_svg::ANSI_NAMES")]
             fa = [x for x in hir.walk(a["body"]) if hir.is_call(x, "anstyle::color::Ansi256Color::from_ansi")]
@@ -404,7 +417,7 @@ def rule_names(facts, rep):
     if len(fmts) == 1:
         pieces, args = hir.fmt_template(fmts[0])
         ok = pieces[0] == "#" and len(pieces) == 4 and [p[2] for p in pieces[1:]] == ["new_upper_hex"] * 3 and all(len(p) > 3 and p[3].get("zero_pad") and p[3].get("width") == 2 for p in pieces[1:]) and \
-            [hir.local_name(x) for x in args] == ["r", "g", "b"]
+            [_arg_name(x) for x in args] == ["r", "g", "b"]
     rep.check(ok, "names", rv["path"], "#RRGGBB", "", loc(rv))
     r = facts.body("anstyle_svg", V + "Term::render_svg")
     lets = lets_of(r["hir"])
